@@ -13,14 +13,18 @@ CONSTANTS Templates,      \* names of the templates the driver can build
           MultiTemplates, \* templates used for repeated collapses
           Origins,        \* subset of 1..3
           Tables,         \* subset of 0..3   ($fixup tables of the driver)
-          Triples         \* TRUE: also sequences of three
+          Triples,        \* TRUE: also sequences of three
+          Full            \* TRUE: style x table at every rotation; FALSE: a diagonal at every rotation, the product at two
 
 VARIABLE sc
 OriginTab == << <<0, 0, 0>>, <<64, -32, 16>>, <<-128, 256, 8>> >>
 Angles == CanonAngles \cup {<<2, 0, 0>>, <<1, 1, 1>>, <<3, 2, 1>>, <<2, 2, 2>>}
 Inst(name, a, o, st, fx) == [name |-> name, ang |-> a, pos |-> OriginTab[o], style |-> st, fix |-> fx]
+Diagonal == {<<0, 1>>, <<1, 3>>, <<2, 2>>, <<0, 0>>}
 Singles == {[t |-> t, insts |-> <<Inst(<<65>>, a, o, st, fx)>>] :
-               t \in Templates, a \in Angles, o \in Origins, st \in 0..2, fx \in Tables}
+               t \in Templates, a \in (IF Full THEN Angles ELSE {<<0, 0, 0>>, <<1, 3, 0>>}), o \in Origins, st \in 0..2, fx \in Tables}
+           \cup {[t |-> t, insts |-> <<Inst(<<65>>, a, o, d[1], d[2])>>] :
+               t \in Templates, a \in Angles, o \in Origins, d \in {x \in Diagonal : x[2] \in Tables}}
 \* a small set of instances that differ in every respect
 Pool == { Inst(<<65>>, <<0, 0, 0>>, 1, 0, 1), Inst(<<66>>, <<0, 1, 0>>, 2, 0, 1), Inst(<<67>>, <<1, 0, 0>>, 3, 1, 2),
           Inst(<<68, 100>>, <<0, 2, 1>>, 2, 2, 3), Inst(<<65>>, <<3, 3, 0>>, 3, 1, 0) }
